@@ -114,6 +114,8 @@ def finalize(m: dict, tier: str) -> list[str]:
                 out.append(f"assignment class {k} never evaluated in {cx}")
         if not c.get(f"expr:{sh}:insane:repeated-key"):
             out.append(f"no expression with a repeated key reached the library in {cx}")
+    if not mon.get("solver-entry:wsh") or not s.get("solver:answered:condition-true") or not s.get("solver:refused:condition-false"):
+        out.append("the PSBT entry (descriptors.miniscript_solver) never answered and refused")
     if not mon.get("bound:ops(M6):wsh"):
         out.append("executed-op hook (M6) never evaluated on a P2WSH spend")
     if not mon.get("bound:ops(branch-free script):tap"):
@@ -825,6 +827,60 @@ class ExprChecker:
             out.append((ver, lock, seq, tag))
         return out
 
+    def _psbt_solver(self, root, env, truth, tx, spent, spk, amount, script, sigs, maps, tail, case, sh, ttag) -> None:
+        """The PSBT entry, ``descriptors.miniscript_solver``: what it answers is judged like what ``satisfy`` answers."""
+        from btclib.descriptors.descriptors import miniscript_solver
+
+        from ..gen.spends import Case
+
+        w, ctx, cm = self.w, self.w.ctx, self.w.cm
+        po = outcome(_solver_psbt, tx, spent, script, sigs, maps)
+        if po[0] == "raise":
+            ctx.stat(f"solver:psbt-not-built:{type(po[1]).__name__}")
+            return
+        psbt = po[1]
+        if (psbt.tx.version, psbt.tx.lock_time, psbt.tx.vin[0].sequence) != (env.version, env.locktime, env.sequence):
+            ctx.stat("solver:transaction-read-differently")     # e.g. a version the library reads as signed
+            return
+        so = outcome(miniscript_solver, psbt, 0)
+        ctx.mon(f"solver-entry:{sh}")
+        scase = {**case, "entry": "descriptors.miniscript_solver"}
+        if so[0] == "raise":
+            if not is_lib_exc(so[1]):
+                ctx.violation(f"satisfy-foreign-exception:{type(so[1]).__name__}@{tb_origin(so[1])}", f"miniscript_solver raised {so[1]!r}"[:500], scase)
+            ctx.stat("solver:refused:condition-" + ("true" if truth else "false"))
+            return
+        if so[1] is None:
+            ctx.stat("solver:not-its-business")     # a pk_h() whose key the input does not name, a script it does not read back
+            return
+        wit = [bytes(x) for x in so[1][1].stack]
+        scase["witness"] = wit
+        ctx.stat("solver:answered:condition-" + ("true" if truth else "false"))
+        if bytes(so[1][0]) != b"" or not wit or wit[-1] != script:
+            ctx.violation("solver-answer-malformed", f"script_sig {bytes(so[1][0]).hex()}, last witness element is "
+                          f"{'the script' if wit and wit[-1] == script else 'not the script'}", scase)
+            return
+        if not truth:
+            what = _why_false(root, env)
+            ctx.violation(f"satisfaction-although-condition-false:{what}",
+                          f"miniscript_solver answered a witness of {len(wit)} elements although the spending condition is false "
+                          f"({what}): {case['expression'][:200]}", scase)
+        tx.vin[0].witness = wit
+        c = Case(f"miniscript-solver:{sh}", tx, spent, 0, cm.ALL_FLAGS, {})
+        lo = w.lib.run(c)
+        model = cm.run(b"", spk, list(tx.vin[0].witness), cm.ALL_FLAGS, cm.Checker(tx, 0, amount, spent))
+        tx.vin[0].witness = []
+        ctx.mon(f"engine-verdict:{sh}")
+        ctx.mon(f"core-model-verdict:{sh}")
+        if lo[0] == "raise" and not is_lib_exc(lo[1]):
+            ctx.violation(f"engine-foreign-exception:{type(lo[1]).__name__}@{tb_origin(lo[1])}", f"verify_input raised {lo[1]!r}", scase)
+        elif lo[0] == "raise" or model != "OK":
+            who = "engine-and-core-model" if lo[0] == "raise" and model != "OK" else "engine-only" if lo[0] == "raise" else "core-model-only"
+            ctx.violation(f"satisfaction-rejected:{who}:{model if model != 'OK' else 'core-accepts'}:{_blame(root, wit[:-1], ttag)}",
+                          f"the witness miniscript_solver produced is refused ({who}; Core model: {model}) for {case['expression'][:160]}", scase)
+        else:
+            ctx.stat("solver:satisfied-and-accepted-by-both")
+
     def assignments(self, root: rm.Node, ln, script: bytes, desc: dict) -> None:
         w, ctx, r, cm, sg, sh = self.w, self.ctx, self.rng, self.w.cm, self.w.sg, self.w.sh
         keys = list(dict.fromkeys(rm.all_keys(root)))
@@ -937,6 +993,8 @@ class ExprChecker:
             if decoy:
                 ctx.classes[f"assign:{sh}:decoy-preimage:{decoy}"] += 1
 
+            if not w.tap:
+                self._psbt_solver(root, env, truth, tx, spent, spk, amount, script, sigs, maps, tail, case, sh, ttag)
             o = outcome(ln.satisfy, sigs, spend)
             if o[0] == "raise":
                 if not is_lib_exc(o[1]):
@@ -1011,6 +1069,25 @@ class ExprChecker:
                                   f"max_exec_stack_items is {bounds['exec']}", {**case, "observed": depth_seen, "bound": bounds["exec"]})
                 if not w.meter.n_depth:
                     ctx.inconclusive_("stack-depth hook never called: engine no longer goes through script_op_codes.assert_stack_size")
+
+
+def _solver_psbt(tx, spent, script: bytes, sigs: dict, maps: dict):
+    """The psbt a Signer would hand to a Finalizer for input 0 of ``tx`` (a model transaction)."""
+    from btclib.psbt.psbt import Psbt
+    from btclib.script import ScriptPubKey
+    from btclib.tx import Tx as LTx
+    from btclib.tx import TxOut as LTxOut
+
+    ltx = LTx.parse(tx.ser(False))
+    psbt = Psbt.from_tx(ltx, check_validity=False)
+    for i, so in enumerate(spent):
+        psbt.inputs[i].witness_utxo = LTxOut(so.value, ScriptPubKey(so.spk, check_validity=False), check_validity=False)
+    pin = psbt.inputs[0]
+    pin.witness_script = script
+    pin.partial_sigs = dict(sigs)
+    pin.sha256_preimages, pin.hash256_preimages = dict(maps["sha256"]), dict(maps["hash256"])
+    pin.ripemd160_preimages, pin.hash160_preimages = dict(maps["ripemd160"]), dict(maps["hash160"])
+    return psbt
 
 
 def _why_false(root: rm.Node, env: rm.Env) -> str:
